@@ -88,4 +88,32 @@ example : startedSince (Run.build Ex.g0 Ex.a1 Ex.c1 ()).1.trace 1 = false ∧
 example : (Run.build Ex.g0 Ex.a0 Ex.c1 ()).2.2 = .failed ∧
     startedSince (Run.build Ex.g0 Ex.a0 Ex.c1 ()).1.trace 1 = false := by decide
 
+/-! ### The `-k` budget and the exit status -/
+
+/-- **The `-k` budget, in every invocation** (for `-k N`, N ≥ 1, or no limit): whenever a command
+    starts, fewer than N commands have failed so far in this `Work` and none was interrupted. -/
+theorem budget_respected {E : Type} {g : Graph} (gok : GraphOK g) (a : Run.Args) (hk : a.failuresLeft ≠ some 0)
+    (c : Choices E) (e : E) (b : Nat) (tr' : List Ev) (hs : (.start b :: tr') <:+ (Run.build g a c e).1.trace) :
+    budgetOk a.failuresLeft (sf tr') = true := by
+  have h := (Run.build_acct gok a hk c e).1
+  have := sf_suffix hs
+  rw [sf_start] at this
+  exact bT_start_suffix h this
+
+theorem budgetOk_spelled (k0 : Nat) (tr : List Ev) (h : budgetOk (some k0) tr = true) :
+    fails tr < k0 ∧ intr tr = false := by
+  simp only [budgetOk, Bool.and_eq_true, decide_eq_true_eq, Bool.not_eq_true'] at h
+  exact h
+
+
+/-- **Exit status**: `run::build` reports success (`ran N tasks`, exit 0) only when no command
+    failed or was interrupted in this `Work`. -/
+theorem success_means_no_failure {E : Type} {g : Graph} (gok : GraphOK g) (a : Run.Args)
+    (hk : a.failuresLeft ≠ some 0) (c : Choices E) (e : E) (n : Nat) (h : (Run.build g a c e).2.2 = .done n) :
+    fails (sf (Run.build g a c e).1.trace) = 0 ∧ intr (sf (Run.build g a c e).1.trace) = false :=
+  ((Run.build_acct gok a hk c e).2.1 n h).2
+
+example : budgetTrace Ex.a0.failuresLeft (Run.build Ex.g0 Ex.a0 Ex.c1 ()).1.trace = true ∧
+    fails (sf (Run.build Ex.g0 Ex.a0 Ex.c1 ()).1.trace) = 1 := by decide
+
 end N2V.C05
